@@ -34,9 +34,12 @@ type spec struct {
 	PageSize   int
 	AutoVacuum int
 	Ops        []op
+	// BigCatalog: the file starts with sixty more tables, so that
+	// sqlite_master spans several pages
+	BigCatalog bool `json:",omitempty"`
 }
 
-var writeKinds = []string{"insert", "insert", "update", "delete", "bulk", "bulk-big", "create-table", "drop-table", "create-index", "drop-index", "alter", "vacuum", "incr-vacuum", "delete-all", "update-grow", "vacuum-pagesize"}
+var writeKinds = []string{"insert", "insert", "update", "delete", "bulk", "bulk-big", "create-table", "drop-table", "create-index", "drop-index", "alter", "vacuum", "incr-vacuum", "delete-all", "update-grow", "vacuum-pagesize", "open-mid-transaction", "open-mid-transaction"}
 var readKinds = []string{"select", "select", "indexed", "rowid", "columns", "low-scan", "low-tables", "low-schema", "low-all", "repeat", "pk", "prepared", "select-in-lo-txn", "indexed-in-lo-txn", "low-all-in-hi-txn", "select-while-writer-open", "rowid-while-writer-open"}
 
 func TestC08History(t *testing.T) {
@@ -51,6 +54,7 @@ func TestC08History(t *testing.T) {
 		Teardown: func() { env.Close() },
 		Gen: func(t *rapid.T) spec {
 			s := spec{PageSize: rapid.SampledFrom([]int{512, 512, 1024, 4096}).Draw(t, "ps"), AutoVacuum: rapid.SampledFrom([]int{0, 0, 1, 2}).Draw(t, "av")}
+			s.BigCatalog = rapid.IntRange(0, 3).Draw(t, "bigcatalog") == 0
 			n := rapid.IntRange(2, 24).Draw(t, "nops")
 			for i := 0; i < n; i++ {
 				var k string
@@ -112,6 +116,12 @@ func run(r *vt.Run, t vt.TB, s spec) {
 	t0 := &tableModel{name: "t0", kind: 0}
 	t0.cols = t0.baseCols()
 	init := []oracle.Stmt{{SQL: t0.createSQL()}, {SQL: "INSERT INTO t0 (b, c) VALUES (1, 'one'), (2, 'two'), (3, 'three')"}}
+	if s.BigCatalog {
+		for i := 0; i < 60; i++ {
+			init = append(init, oracle.Stmt{SQL: fmt.Sprintf("CREATE TABLE filler_%02d (a INTEGER PRIMARY KEY, some_longer_column_name_%02d TEXT DEFAULT 'padding padding padding', c)", i, i)})
+		}
+		init = append(init, oracle.Stmt{SQL: "INSERT INTO filler_07 (c) VALUES ('seven')"}, oracle.Stmt{SQL: "INSERT INTO filler_41 (c) VALUES ('forty-one')"})
+	}
 	res, err := env.Create("w", path, s.PageSize, s.AutoVacuum, init)
 	sqdb.MustOK(r, t, "create", res, err, len(init)+2)
 	defer env.O.Close("w")
@@ -348,6 +358,91 @@ func run(r *vt.Run, t vt.TB, s spec) {
 				history = append(history, fmt.Sprintf("vacuum-pagesize:%d", nps))
 				note("vacuum")
 				note("pagesize")
+			}
+		case "open-mid-transaction":
+			// A handle is opened while another connection is in the middle of
+			// a write transaction that has already spilled changed pages into
+			// the file (schema changes among them), and which it then rolls
+			// back. Whatever the handle looked at when it was opened, its
+			// reads show the committed state.
+			if !w2open {
+				if err := env.O.Open("w2", path); err != nil {
+					r.Harness(t, "open w2: %v", err)
+				}
+				w2open = true
+				if _, err := env.O.Query("w2", "PRAGMA synchronous=OFF"); err != nil {
+					r.Harness(t, "w2 synchronous: %v", err)
+				}
+			}
+			if _, err := env.O.Query("w2", "PRAGMA cache_size=5"); err != nil {
+				r.Harness(t, "w2 cache_size: %v", err)
+			}
+			txn := []oracle.Stmt{{SQL: "BEGIN"}}
+			if tm != nil {
+				txn = append(txn, oracle.Stmt{SQL: "DROP TABLE " + tm.name})
+			}
+			if s.BigCatalog {
+				txn = append(txn, oracle.Stmt{SQL: "DROP TABLE filler_07"}, oracle.Stmt{SQL: "DROP TABLE filler_41"}, oracle.Stmt{SQL: "ALTER TABLE filler_30 ADD COLUMN added_in_the_open_transaction"})
+			}
+			txn = append(txn, oracle.Stmt{SQL: "CREATE TABLE scratch_of_the_open_transaction (x)"},
+				oracle.Stmt{SQL: "WITH RECURSIVE c(x) AS (SELECT 1 UNION ALL SELECT x+1 FROM c WHERE x < 1500) INSERT INTO scratch_of_the_open_transaction SELECT hex(zeroblob(150)) FROM c"})
+			res, err := env.O.Script("w2", txn, true)
+			sqdb.MustOK(r, t, "open transaction", res, err, len(txn))
+			hx, oerr := sqlittle.Open(path)
+			if err := env.O.Exec("w2", "ROLLBACK"); err != nil {
+				r.Harness(t, "rollback w2: %v", err)
+			}
+			env.O.Query("w2", "PRAGMA cache_size=2000")
+			classes["handle-opened-mid-transaction"] = true
+			if oerr != nil {
+				continue // refusing to open at that moment is fine
+			}
+			ok := func() bool {
+				defer hx.Close()
+				lx := sqlittle.VerifLow(hx)
+				if err := lx.RLock(); err != nil {
+					fail("lock-error", "handle opened mid-transaction: RLock: %v", err)
+					return false
+				}
+				got, err := lx.Tables()
+				lx.RUnlock()
+				var want []string
+				for _, row := range query("SELECT name FROM sqlite_master WHERE type='table' ORDER BY rowid") {
+					want = append(want, fold.Lower(string(row[0].B)))
+				}
+				if err != nil || strings.Join(got, ",") != strings.Join(want, ",") {
+					fail("stale-schema", "a handle opened while another connection was inside a write transaction it later rolled back: Tables() = %d names, %v; SQLite has %d (%v / %v)", len(got), err, len(want), got, want)
+					return false
+				}
+				names := []string{}
+				if tm != nil {
+					names = append(names, tm.name)
+				}
+				if s.BigCatalog {
+					names = append(names, "filler_07", "filler_41", "filler_30")
+				}
+				for _, n := range names {
+					cols, err := hx.Columns(n)
+					if err != nil {
+						fail("stale-schema", "a handle opened while another connection was inside a write transaction it later rolled back: Columns(%s): %v", n, err)
+						return false
+					}
+					wantCols := query("SELECT name FROM pragma_table_info('" + n + "') ORDER BY cid")
+					if len(cols) != len(wantCols) {
+						fail("stale-schema", "a handle opened while another connection was inside a write transaction it later rolled back: Columns(%s) = %v, SQLite has %d columns", n, cols, len(wantCols))
+						return false
+					}
+					want := query("SELECT count(*) FROM " + n)
+					cnt := 0
+					if err := hx.Select(n, func(sqlittle.Row) { cnt++ }, cols[0]); err != nil || int64(cnt) != want[0][0].I {
+						fail("stale-or-wrong-rows", "a handle opened while another connection was inside a write transaction it later rolled back: Select(%s) gives %d rows, %v; SQLite has %d", n, cnt, err, want[0][0].I)
+						return false
+					}
+				}
+				return true
+			}()
+			if !ok {
+				return
 			}
 		case "incr-vacuum":
 			if exec("PRAGMA incremental_vacuum") {
